@@ -22,6 +22,22 @@ import (
 type VerifClient struct {
 	C      *webClient
 	Closed bool
+	// WriterDead: the websocket writer goroutine has exited (write error or
+	// time-out) but the client's loop has not noticed yet
+	WriterDead bool
+}
+
+// WriterDies models the death of the websocket writer: writerDone is closed
+// and nothing receives from the write channel any more (it is made
+// unbuffered so that a send can never be chosen, as with the real channel
+// once its small buffer has filled up).
+func (v *VerifClient) WriterDies() {
+	if v.WriterDead {
+		return
+	}
+	v.C.writeCh = make(chan interface{})
+	close(v.C.writerDone)
+	v.WriterDead = true
 }
 
 func VerifNewClient(id string) *VerifClient {
